@@ -218,7 +218,13 @@ class World:
                     y.unlink()
             elif k == "ForeignVersion":
                 d = json.loads(self.cache_file.read_text())
-                d["version"] = "0.0.1"
+                flavour = op[1] if len(op) > 1 else 0     # another version: a different number, no version field
+                if flavour == 0:                           # at all (a release that did not write one), or null
+                    d["version"] = "0.0.1"
+                elif flavour == 1:
+                    d.pop("version", None)
+                else:
+                    d["version"] = None
                 self.cache_file.write_text(json.dumps(d, indent=2))
             elif k == "AlterChecksum":
                 d = json.loads(self.cache_file.read_text())
